@@ -14,7 +14,7 @@ EXT = {"edif": ".edf", "verilog": ".v", "eblif": ".eblif"}
 # therefore minutes of work, not a hang. Such inputs are outside what the fuzzer is allowed to produce.
 HUGE_NUMBER = re.compile(r"\d{5,}")
 KINDS = ["truncate", "truncate", "delete", "duplicate", "replace", "replace", "swap", "dangling", "dangling",
-         "unsupported", "all-truncations", "garbage"]
+         "unsupported", "all-truncations", "garbage", "recursive"]
 JUNK = ["(", ")", "0", "zz", '"s"', "cell", "net", "module", "endmodule", ";", ",", ".", "[", "]", "{", "}",
         ".model", ".end", ".subckt", "=", "\\", "`celldefine", "(*", "*)", "assign", "wire", "#"]
 
@@ -223,6 +223,42 @@ class C15(Prop):
         if kind == "garbage":
             return [(join(fmt, toks[:i]) + " \x00\x07 %s ((( " % JUNK[w % len(JUNK)] + join(fmt, toks[i:]),
                      False, "garbage")]
+        if kind == "recursive":
+            # a module/cell/model that (directly or through others) instantiates itself: invalid, must
+            # be rejected or read without hanging
+            if fmt == "verilog":
+                mods = [toks[k + 1].strip() for k in range(n - 1) if toks[k] == "module"]
+                ends = [k for k in range(n) if toks[k] == "endmodule"]
+                if not mods or len(ends) != len(mods):
+                    return [(join(fmt, toks[:i]), False, "truncate")]
+                t, s_ = pos % len(mods), w % len(mods)
+                ins = []
+                for r in range(1 + w % 3):
+                    ins += [mods[s_], "rec_%d" % r, "(", ")", ";"]
+                k = ends[t]
+                return [(join(fmt, toks[:k] + ins + toks[k:]), False, "recursive")]
+            if fmt == "eblif":
+                models = [toks[k + 1] for k in range(n - 1) if toks[k] == ".model"]
+                ends = [k for k in range(n) if toks[k] == ".end"]
+                if not models or len(ends) != len(models):
+                    return [(join(fmt, toks[:i]), False, "truncate")]
+                t, s_ = pos % len(models), w % len(models)
+                ins = []
+                for r in range(1 + w % 3):
+                    ins += [".subckt", models[s_], "zz=zz_%d" % r, "\n"]
+                k = ends[t]
+                return [(join(fmt, toks[:k] + ins + toks[k:]), False, "recursive")]
+            cells = [toks[k + 1] if toks[k + 1] != "(" else toks[k + 3] for k in range(n - 3)
+                     if toks[k].lower() == "cell" and toks[k - 1] == "("]
+            conts = [k for k in range(1, n) if toks[k].lower() == "contents" and toks[k - 1] == "("]
+            if not cells or not conts:
+                return [(join(fmt, toks[:i]), False, "truncate")]
+            k = conts[pos % len(conts)] + 1
+            ins = []
+            for r in range(1 + w % 3):
+                ins += tokenize("edif", "(instance rec_%d (viewRef netlist (cellRef %s)))" % (
+                    r, cells[w % len(cells)]))
+            return [(join(fmt, toks[:k] + ins + toks[k:]), False, "recursive")]
         if fmt != "edif":
             return [(join(fmt, toks[:i]), False, "truncate")]
         if kind == "dangling":
